@@ -399,27 +399,28 @@ Proof.
   intros HR. unfold try_restarted. destruct (get s u) as [a|] eqn:Ea; [|intros H; inversion H; subst; apply le3_refl].
   destruct (a_children a); [|intros H; inversion H; subst; apply le3_refl].
   destruct (a_st a) eqn:Est; try (intros H; inversion H; subst; apply le3_refl).
-  assert (KK : forall s1 s2 o2 p2 o1 p1, handle roles s u TT 0 snd = (s1, o1, p1) -> handle roles s1 u TTS 0 snd = (s2, o2, p2) ->
+  destruct (provide s (a_tok a)) as [s0 inst] eqn:Ep.
+  assert (G0 : get s0 u = Some a) by (unfold provide in Ep; inversion Ep; subst; exact Ea).
+  assert (P0 : Phi s0 = Phi s) by (unfold provide in Ep; inversion Ep; subst; reflexivity).
+  assert (HR0 : RI s0) by (unfold provide in Ep; inversion Ep; subst; exact HR).
+  assert (KK : forall s1 s2 o2 p2 o1 p1, handle roles s0 u TT 0 snd = (s1, o1, p1) -> handle roles s1 u TTS 0 snd = (s2, o2, p2) ->
                exists b, get s2 u = Some b /\ a_st b = Restarting).
   { intros s1 s2 o2 p2 o1 p1 E1 E2. apply keep_handle in E1. apply keep_handle in E2.
-    destruct (keep_status _ _ _ _ E1 Ea) as (a1 & G1 & S1). destruct (keep_status _ _ _ _ E2 G1) as (a2 & G2 & S2).
+    destruct (keep_status _ _ _ _ E1 G0) as (a1 & G1 & S1). destruct (keep_status _ _ _ _ E2 G1) as (a2 & G2 & S2).
     exists a2. split; [exact G2|congruence]. }
-  destruct (handle roles s u TT 0 snd) as [[s1 o1] p1] eqn:E1. unfold bind at 1. destruct p1.
-  { intros H; inversion H; subst. eapply le3_handle0; [exact HR|exact E1|reflexivity]. }
-  assert (HR1 : RI s1) by (eapply RI_ext; [exact HR|eapply ext_handle; exact E1]).
+  destruct (handle roles s0 u TT 0 snd) as [[s1 o1] p1] eqn:E1. unfold bind at 1. destruct p1.
+  { intros H; inversion H; subst. unfold le3. rewrite <- P0. eapply le3_handle0; [exact HR0|exact E1|reflexivity]. }
+  assert (HR1 : RI s1) by (eapply RI_ext; [exact HR0|eapply ext_handle; exact E1]).
   destruct (handle roles s1 u TTS 0 snd) as [[s2 o2] p2] eqn:E2. unfold bind at 1.
   assert (L12 : le3 s s2 (o1 ++ o2) 0).
-  { change 0 with (0 + 0). eapply le3_trans; [eapply le3_handle0; [exact HR|exact E1|reflexivity]|eapply le3_handle0; [exact HR1|exact E2|reflexivity]]. }
+  { unfold le3. rewrite <- P0. change 0 with (0 + 0). eapply le3_trans; [eapply le3_handle0; [exact HR0|exact E1|reflexivity]|eapply le3_handle0; [exact HR1|exact E2|reflexivity]]. }
   destruct p2.
   { intros H; inversion H; subst. exact L12. }
   assert (HR2 : RI s2) by (eapply RI_ext; [exact HR1|eapply ext_handle; exact E2]).
   destruct (KK _ _ _ _ _ _ eq_refl E2) as (b & Gb & Sb).
-  destruct (provide s2 (a_tok a)) as [s3 inst] eqn:Ep.
-  assert (G3 : get s3 u = Some b) by (unfold provide in Ep; inversion Ep; subst; exact Gb).
-  assert (P3 : Phi s3 = Phi s2) by (unfold provide in Ep; inversion Ep; subst; reflexivity).
-  set (s4 := upd_actor s3 u (fun b => w_st Alive (w_inst inst b))).
-  assert (P4 : Phi s4 = Phi s3).
-  { pose proof (Phi_upd s3 u (fun b => w_st Alive (w_inst inst b)) b G3) as H. fold s4 in H.
+  set (s4 := upd_actor s2 u (fun b => w_st Alive (w_inst inst b))).
+  assert (P4 : Phi s4 = Phi s2).
+  { pose proof (Phi_upd s2 u (fun b => w_st Alive (w_inst inst b)) b Gb) as H. fold s4 in H.
     assert (phi (w_st Alive (w_inst inst b)) = phi b) by (unfold phi, owe, msgs; cbn [a_st a_tok a_parent a_watchers a_inflight a_sysq w_st w_inst]; rewrite Sb; reflexivity).
     lia. }
   set (s5 := deliver_sys s4 (a_tok a) (a_tok a) SResume).
@@ -427,8 +428,8 @@ Proof.
   destruct (start_instance roles s5 u (a_tok a) (a_parent a)) as [[s6 o6] p6] eqn:E6.
   intros H; inversion H; subst.
   assert (HR5 : RI s5).
-  { apply RI_deliver_sys. eapply RI_ext; [|apply ext_of_mono; [eapply mono_upd_f with (a0 := b); [exact G3|congruence|intros; repeat split]|apply regsame_upd_actor]].
-    unfold provide in Ep; inversion Ep; subst. exact HR2. }
+  { apply RI_deliver_sys. eapply RI_ext; [|apply ext_of_mono; [eapply mono_upd_f with (a0 := b); [exact Gb|congruence|intros; repeat split]|apply regsame_upd_actor]].
+    exact HR2. }
   pose proof (le3_start_instance _ _ _ _ _ _ _ HR5 E6) as L6.
   unfold le3 in *. rewrite !hc_app, !bc_app in *. lia.
 Qed.
